@@ -125,7 +125,9 @@ Inductive dstep :=
 | SBakUnlink                             (* _commit 120-123 *)
 | SDirToBak                              (* _commit 125-128: rename(.dir, .bak); OSError ignored *)
 | SDirCreate                             (* _commit 130: open(.dir,'w') *)
-| SDirTear                               (* a write() that ends inside the next line *)
+| SDirTear                               (* a write() that ends inside the next line: the file does not parse (open raises
+                                            SyntaxError/ValueError; in rare cases python reads the fragment as an entry of
+                                            another key and the torn key is simply absent -- both allowed by the theorems) *)
 | SDirLine (e : entry).                  (* the line is complete on disk *)
 
 Definition dapply (d : ddisk) (s : dstep) : ddisk :=
@@ -264,6 +266,12 @@ Definition dumb_wf (d : ddisk) : Prop :=
   | None => True
   | Some (l, t) => t = false /\ idx_wf l (dlen (dk_dat d))
   end.
+
+(* the disks doit can leave: starting from no files, any number of sessions on a readable index, each one run to
+   completion (k >= number of steps) or killed after k steps *)
+Inductive reachable : ddisk -> Prop :=
+| reach_empty : reachable ddisk_empty
+| reach_session d dels sets k : reachable d -> dumb_wf d -> NoDup (map fst sets) -> reachable (dumb_crash d dels sets k).
 
 (* ---------- encoding for the correspondence check ---------- *)
 Fixpoint rle_go (fuel : nat) (cur : N) (cnt : nat) (l : bytes) : list Z :=
